@@ -89,8 +89,58 @@ func dumpKV(db *pebble.DB) ([]string, map[string][]byte) {
 	return keys, vals
 }
 
+// dumpHot reads only the key ranges that can matter for the hot signatures and
+// the pool topologies (bulk runs hold thousands of filler signatures under
+// other hashes; dumping them after every step would dominate the run).
+func dumpHot(db *pebble.DB) ([]string, map[string][]byte) {
+	snap := db.NewSnapshot()
+	defer snap.Close()
+	vals := map[string][]byte{}
+	var keys []string
+	var prefixes []string
+	for _, id := range []string{"X", "Y"} {
+		prefixes = append(prefixes, "sig:"+id)
+	}
+	for _, h := range topoHashes() {
+		prefixes = append(prefixes, "topo:"+h+":")
+	}
+	for _, f := range fuzzyHashes() {
+		if f != "" {
+			prefixes = append(prefixes, "fuzzy:"+f+":")
+		}
+	}
+	sort.Strings(prefixes)
+	for _, p := range prefixes {
+		it, err := snap.NewIter(&pebble.IterOptions{LowerBound: []byte(p), UpperBound: incrementLastByte([]byte(p))})
+		if err != nil {
+			panic(err)
+		}
+		for it.First(); it.Valid(); it.Next() {
+			k := string(it.Key())
+			if strings.HasPrefix(p, "sig:") && k != p {
+				continue
+			}
+			if _, dup := vals[k]; !dup {
+				keys = append(keys, k)
+				vals[k] = append([]byte(nil), it.Value()...)
+			}
+		}
+		it.Close()
+	}
+	sort.Strings(keys)
+	return keys, vals
+}
+
+var hotOnly bool
+
 func snapshotState(s *PebbleScanner) *kvState {
-	keys, vals := dumpKV(s.db)
+	var keys []string
+	var vals map[string][]byte
+	if hotOnly {
+		keys, vals = dumpHot(s.db)
+	} else {
+		keys, vals = dumpKV(s.db)
+	}
 	var sb strings.Builder
 	for _, k := range keys {
 		sb.WriteString(k)
@@ -208,6 +258,17 @@ func hotSig(t *vs.Tape, id string, tag int) detection.Signature {
 	}
 	s.NodeCount = []int{4, 9, 5}[v]
 	s.LoopDepth = []int{1, 2, 1}[v]
+	// the same version may be re-written with another tolerance only (a
+	// metadata-style update that keeps hashes and score), or with a slightly
+	// different score
+	switch t.Weighted("hot.tolvar", 5, 2, 2, 1) {
+	case 1:
+		s.EntropyTolerance = 2.0
+	case 2:
+		s.EntropyTolerance = 0.05
+	case 3:
+		s.EntropyScore += 0.35
+	}
 	return s
 }
 
@@ -244,6 +305,28 @@ func runC11(t *vs.Tape, cfg map[string]string) (res vs.Result) {
 		}
 	}
 
+	// Bulk configuration: thousands of filler signatures (under hashes no pool
+	// topology has), so that an index rebuild spans several 1000-entry chunks
+	// while readers scan and another writer flips the hot signatures.
+	bulkDen := 250
+	if cfg["tier"] == "thorough" {
+		bulkDen = 60
+	}
+	bulk := cfg["writers_only"] != "1" && t.Chance("c11.bulk", 1, bulkDen)
+	hotOnly = bulk
+	defer func() { hotOnly = false }()
+	if bulk {
+		n := []int{1001, 1500, 2001, 2100}[t.Intn(4, "bulk.n")]
+		var ptrs []*detection.Signature
+		for i := 0; i < n; i++ {
+			ptrs = append(ptrs, &detection.Signature{ID: fmt.Sprintf("F%05d", i), Name: "filler", TopologyHash: fmt.Sprintf("ff%030d", i%7), EntropyScore: 1.0, EntropyTolerance: 0.1, Severity: "LOW"})
+		}
+		if err := s.AddSignatures(ptrs); err != nil {
+			res.Infra = "bulk prefill: " + err.Error()
+			return
+		}
+		c.Inc("runs_bulk_rebuild")
+	}
 	nR := 1 + t.Weighted("n.readers", 3, 2, 1)
 	nW := 1 + t.Weighted("n.writers", 3, 2)
 	if cfg["writers_only"] == "1" {
@@ -258,7 +341,7 @@ func runC11(t *vs.Tape, cfg map[string]string) (res vs.Result) {
 		var ops []readerOp
 		n := 1 + t.Intn(4, "r.nops")
 		for j := 0; j < n; j++ {
-			ops = append(ops, readerOp{kind: scanKind(t.Weighted("r.kind", 40, 30, 20, 20, 3)), topo: t.Weighted("r.topo", 3, 2, 3, 1)})
+			ops = append(ops, readerOp{kind: scanKind(t.Weighted("r.kind", 40, 30, 20, 20, 1)), topo: t.Weighted("r.topo", 3, 2, 3, 1)})
 		}
 		rprog = append(rprog, ops)
 	}
@@ -294,9 +377,23 @@ func runC11(t *vs.Tape, cfg map[string]string) (res vs.Result) {
 		wprog = append(wprog, ops)
 	}
 
+	if bulk {
+		// one extra writer does nothing but rebuild; the other writers get many hot flips
+		nW++
+		wprog = append(wprog, []writerOp{{kind: opRebuild}})
+		for i := range wprog[:len(wprog)-1] {
+			for k := 0; k < 12; k++ {
+				tag++
+				wprog[i] = append(wprog[i], writerOp{kind: opAdd, sigs: []detection.Signature{hotSig(t, hot[t.Intn(2, "w.id")], tag)}})
+			}
+		}
+	}
 	sim := vs.NewSim(vs.ModeSched, t)
 	sim.MapOrderOn = true // ScanBatch ranges a Go map: its order must come from the tape, not from the runtime
 	sim.MaxSteps = 60000
+	if bulk {
+		sim.MaxSteps = 400000
+	}
 	timeline := []*kvState{snapshotState(s)}
 	sim.OnStep = func(step int, _ *vs.Task, _ string) {
 		st := snapshotState(s)
@@ -344,7 +441,11 @@ func runC11(t *vs.Tape, cfg map[string]string) (res vs.Result) {
 	for i, prog := range wprog {
 		name := fmt.Sprintf("W%d", i)
 		prog := prog
-		sim.Go(name, func() {
+		wt := 1
+		if bulk && len(prog) == 1 && prog[0].kind == opRebuild {
+			wt = 12 // spread the other tasks over the whole rebuild
+		}
+		task := sim.Go(name, func() {
 			for _, op := range prog {
 				switch op.kind {
 				case opAdd:
@@ -371,6 +472,7 @@ func runC11(t *vs.Tape, cfg map[string]string) (res vs.Result) {
 				}
 			}
 		})
+		task.Weight = wt
 	}
 	for _, prog := range wprog {
 		var ss []string
@@ -489,6 +591,10 @@ func runC11(t *vs.Tape, cfg map[string]string) (res vs.Result) {
 	// interleaved writers would pair an index entry of one version with the record
 	// of another (or resurrect a ghost) in the very next scan.
 	final := timeline[len(timeline)-1]
+	if bulk {
+		hotOnly = false
+		final = snapshotState(s) // the end-state model needs every record, fillers included
+	}
 	fm := newStoreModel()
 	fm.threshold, fm.tolerance = final.thr, final.tol
 	for _, k := range final.keys {
